@@ -257,7 +257,7 @@ class FilesetEngine:
         exp = ("accept", last_dump)
         cls_override = None
         k = m["kind"]
-        if k == "none":
+        if k in ("none", "flip_after_open", "baseless_after_allow"):
             pass
         elif k == "remove":
             i = m["i"] % n
@@ -539,6 +539,10 @@ class FilesetEngine:
                         break
                 if stop:
                     break
+        if not viol:
+            v = self.same_process_phase(case, info, cls, md, probes, faults)
+            if v:
+                viol.append(v)
         shutil.rmtree(md, ignore_errors=True)
         layout = [n, info["mf"], fork is not None, foreign is not None]
         sig = hashlib.sha256(json.dumps([layout, [o["op"] for o in case["ops"]], len(muts)]).encode()).hexdigest()[:16]
@@ -554,6 +558,82 @@ class FilesetEngine:
             "nontrivial": sigs > 0,
             "subcases": sigs,
         }
+
+    def same_process_phase(self, case, info, cls, md, probes, faults):
+        """State kept in memory across opens must not weaken the checks: within ONE process the
+        valid set is opened, then (a) a committed payload byte is flipped in place and the same
+        paths are opened again, (b) the documented allow_baseless=True option is used once and a
+        base-less set is then opened without it."""
+        files = info["files"]
+        n = len(files)
+        seedpos = sum(len(f) for f in files) + len(case["ops"])
+
+        def fn():
+            from pathlib import Path
+
+            shutil.rmtree(md, ignore_errors=True)
+            os.makedirs(md)
+            for f in files:
+                shutil.copyfile(os.path.join(info["dir"], f), os.path.join(md, f))
+                m = os.path.join(info["dir"], f + "mf.json")
+                if os.path.exists(m):
+                    shutil.copyfile(m, os.path.join(md, f + "mf.json"))
+            paths = [Path(os.path.join(md, f)) for f in files]
+            out = {}
+            try:
+                o = cls(paths, "r")
+                o.close()
+                out["first"] = "opens"
+            except Exception as e:
+                out["first"] = f"raises {type(e).__name__}: {e}"[:200]
+                return out
+            i = seedpos % n
+            p = os.path.join(md, files[i])
+            b = bytearray(open(p, "rb").read())
+            off = UB + (seedpos * 7919) % max(1, len(b) - UB)
+            b[off] ^= 0x10
+            open(p, "wb").write(bytes(b))
+            out["flipped"] = [files[i], off]
+            try:
+                o = cls(paths, "r")
+                o.close()
+                out["second"] = "opens"
+            except Exception as e:
+                out["second"] = "raises"
+            # (b) allow_baseless
+            if n >= 2:
+                b[off] ^= 0x10
+                open(p, "wb").write(bytes(b))
+                try:
+                    o = cls(paths[1:], "r", allow_baseless=True)
+                    o.close()
+                    out["baseless_allowed"] = "opens"
+                except Exception as e:
+                    out["baseless_allowed"] = "raises"
+                try:
+                    o = cls(paths[1:], "r")
+                    o.close()
+                    out["baseless_after"] = "opens"
+                except Exception:
+                    out["baseless_after"] = "raises"
+            return out
+
+        status, out = driver.exec_isolated(fn, timeout=120)
+        if status != "ok":
+            probes["same_process_phase_" + status] = 1
+            return None
+        faults["flip_after_first_open_same_process"] = 1
+        probes["same_process_phases"] = 1
+        if out.get("first") != "opens":
+            return self.v("rejected-valid", {"kind": "none"}, f"valid set refused in the same-process phase: {out.get('first')}", case)
+        if out.get("second") == "opens":
+            return self.v("accepted-corrupt", {"kind": "flip_after_open"}, f"payload byte {out['flipped'][1]} of {out['flipped'][0]} flipped after a first successful open in the same process: the second open accepts the set", case)
+        if out.get("baseless_after") == "opens":
+            faults["open_after_allow_baseless"] = 1
+            return self.v("accepted-corrupt", {"kind": "baseless_after_allow"}, "a set without its base opens (no option given) after allow_baseless=True had been used once in the same process", case)
+        if n >= 2:
+            faults["open_after_allow_baseless"] = 1
+        return None
 
     def v(self, oracle, m, detail, case):
         rc = json.loads(json.dumps(case))
